@@ -16,6 +16,7 @@ class SpecFn:
         self.ret = ret            # type text
         self.opaque = opaque
         self.native = native
+        self.reads = []           # heap fields (implicit parameters)
 
 
 class CallMixin:
@@ -41,6 +42,14 @@ class CallMixin:
                 a = self.truthy(self.ev1(e.args[0], st))
                 b = self.truthy(self.ev1(e.args[1], st))
                 yield st, V(BOOL, z3.Implies(a, b))
+                return
+            if f.id == 're_match':
+                from .regex import to_z3
+                pat = e.args[0]
+                if not (isinstance(pat, ast.Constant) and isinstance(pat.value, str)):
+                    raise Unsupported('re_match needs a literal pattern')
+                v = self.ev1(e.args[1], st)
+                yield st, V(BOOL, z3.InRe(v.t, to_z3(pat.value)))
                 return
             if f.id == 'cast':
                 yield from self.ev(e.args[1], st, exits)
@@ -469,12 +478,9 @@ class CallMixin:
     def pure_result(self, c, rty, bound, st):
         """result of a pure callee = uninterpreted function of its arguments (and of the heap fields it reads)"""
         argv = [bound[k] for k in bound if not isinstance(bound[k].ty, TPy) and bound[k].ty is not NONE]
-        reads = getattr(c, 'reads', None) or []
         sorts = [a.ty.sort() for a in argv]
         terms = [a.t for a in argv]
-        for fld in c.note.split() if False else []:
-            pass
-        for fld in self.contract_reads(c):
+        for fld in c.reads:
             fty = self.any_field_ty(fld)
             arr = self.heap_arr(st, fld, fty)
             sorts.append(arr.sort())
@@ -550,7 +556,11 @@ class CallMixin:
             return self.specfns[sf.name]
         ptys = [parse_type(t, self.reg.enums) for _, t in sf.params]
         rty = parse_type(sf.ret, self.reg.enums)
-        sorts = [t.sort() for t in ptys] + [rty.sort()]
+        htys = [self.any_field_ty(f) for f in sf.reads]
+        if any(h is None for h in htys):
+            raise Unsupported(f'spec function {sf.name} reads an undeclared field')
+        hsorts = [z3.ArraySort(RefSort(), h.sort()) for h in htys]
+        sorts = [t.sort() for t in ptys] + hsorts + [rty.sort()]
         if sf.opaque or sf.node is None:
             f = z3.Function(sf.name, *sorts)
             self.specfns[sf.name] = (f, ptys, rty)
@@ -558,8 +568,11 @@ class CallMixin:
         f = z3.RecFunction(sf.name, *sorts)
         self.specfns[sf.name] = (f, ptys, rty)
         params = [z3.Const(f'{sf.name}!{n}', t.sort()) for (n, _), t in zip(sf.params, ptys)]
+        hparams = [z3.Const(f'{sf.name}!H_{f}', hs) for f, hs in zip(sf.reads, hsorts)]
         st0 = State()
         st0.env = {n: V(t, p) for (n, _), t, p in zip(sf.params, ptys, params)}
+        st0.heap = {f: hp for f, hp in zip(sf.reads, hparams)}
+        self._spec_heap_guard.append(set(sf.reads))
         from .engine import FuncCtx
         ctx = FuncCtx('<spec>', sf.name, sf.node, None, None)
         self.fstack.append(ctx)
@@ -569,23 +582,70 @@ class CallMixin:
         finally:
             self.spec_mode -= 1
             self.fstack.pop()
+            self._spec_heap_guard.pop()
+        cases = []
+        for o in outs:
+            if o.kind != 'return':
+                raise Unsupported(f'spec function {sf.name}: path ends with {o.kind}')
+            if set(o.st.heap) - set(sf.reads):
+                raise Unsupported(f'spec function {sf.name} reads fields {set(o.st.heap) - set(sf.reads)} not listed in @reads')
+            cases.append((z3.And(o.st.pc) if o.st.pc else z3.BoolVal(True), self.coerce(o.val, rty).t))
+        body = cases[-1][1]
+        for cnd, t in reversed(cases[:-1]):
+            body = z3.If(cnd, t, body)
+        z3.RecAddDefinition(f, params + hparams, body)
+        return self.specfns[sf.name]
+
+    def spec_apply(self, sf, args, st):
+        """recursive spec functions are z3 recursive definitions; non-recursive ones are expanded in place
+        (macros) unless the contract being verified lists them as opaque, in which case they are uninterpreted."""
+        ptys = [parse_type(t, self.reg.enums) for _, t in sf.params]
+        rty = parse_type(sf.ret, self.reg.enums)
+        if len(args) != len(ptys):
+            raise Unsupported(f'spec function {sf.name} arity')
+        cargs = [self.coerce(a, t, st) for a, t in zip(args, ptys)]
+        if sf.node is not None and not sf.opaque and not _is_recursive(sf) and sf.name not in self.cur_opaque:
+            if sf.name in self._expanding:
+                raise Unsupported(f'mutually recursive spec function {sf.name}')
+            self._expanding.add(sf.name)
+            try:
+                return self._expand_spec(sf, cargs, rty, st)
+            finally:
+                self._expanding.discard(sf.name)
+        hterms = []
+        for fld in sf.reads:
+            hterms.append(self.heap_arr(st, fld, self.any_field_ty(fld)))
+        if sf.node is not None and not sf.opaque and _is_recursive(sf) and sf.name not in self.cur_opaque:
+            f, _, _ = self.spec_decl(sf)
+        else:
+            f = self.UF(sf.name, *([t.sort() for t in ptys] + [h.sort() for h in hterms] + [rty.sort()]))
+        return V(rty, f(*([a.t for a in cargs] + hterms)))
+
+    def _expand_spec(self, sf, cargs, rty, st):
+        from .engine import FuncCtx
+        sub = State()
+        sub.env = {n: a for (n, _), a in zip(sf.params, cargs)}
+        sub.heap = dict(st.heap)          # a macro sees the heap of the state it is expanded in
+        sub.ghost = dict(st.ghost)
+        ctx = FuncCtx('<spec>', sf.name, sf.node, None, None)
+        self.fstack.append(ctx)
+        self.spec_mode += 1
+        try:
+            outs = self.exec_block(sf.node.body, sub)
+        finally:
+            self.spec_mode -= 1
+            self.fstack.pop()
         cases = []
         for o in outs:
             if o.kind != 'return':
                 raise Unsupported(f'spec function {sf.name}: path ends with {o.kind}')
             cases.append((z3.And(o.st.pc) if o.st.pc else z3.BoolVal(True), self.coerce(o.val, rty).t))
+            for k2, a2 in o.st.heap.items():
+                st.heap.setdefault(k2, a2)      # heap arrays first touched inside the macro
         body = cases[-1][1]
         for cnd, t in reversed(cases[:-1]):
             body = z3.If(cnd, t, body)
-        z3.RecAddDefinition(f, params, body)
-        return self.specfns[sf.name]
-
-    def spec_apply(self, sf, args, st):
-        f, ptys, rty = self.spec_decl(sf)
-        if len(args) != len(ptys):
-            raise Unsupported(f'spec function {sf.name} arity')
-        ts = [self.coerce(a, t, st).t for a, t in zip(args, ptys)]
-        return V(rty, f(*ts))
+        return V(rty, body)
 
     # ------------------------------------------------------------------ comprehensions / quantifiers
     def iter_seq(self, it, st):
@@ -808,3 +868,10 @@ class CallMixin:
                 if extra:
                     raise Unsupported('filtered comprehension element introduces facts')
             yield st2, out
+
+
+def _is_recursive(sf):
+    for n in ast.walk(sf.node):
+        if isinstance(n, ast.Call) and isinstance(n.func, ast.Name) and n.func.id == sf.name:
+            return True
+    return False
